@@ -348,7 +348,19 @@ func (g *ExprGen) nearMiss(n *uni.Node) string {
 			// equal after truncation to the field's width, but a different integer
 			return strconv.FormatInt(n.I+int64(1)<<uint(k.Bits()), 10)
 		}
-		switch g.intn(6, "im") {
+		switch g.intn(8, "im") {
+		case 6:
+			// legacy octal: a leading zero makes the digits base 8 (the same integer, as `0755` for a file mode)
+			if n.I >= 0 {
+				return "0" + strconv.FormatInt(n.I, 8)
+			}
+			return "-0" + strconv.FormatUint(uint64(-(n.I+1))+1, 8)
+		case 7:
+			// zero-padded decimal digits: another integer in base 8, or no integer at all (digits 8, 9)
+			if n.I >= 0 {
+				return "0" + strconv.FormatInt(n.I, 10)
+			}
+			return "-0" + strconv.FormatUint(uint64(-(n.I+1))+1, 10)
 		case 0:
 			if n.I < math.MaxInt64 {
 				return strconv.FormatInt(n.I+1, 10)
@@ -378,7 +390,11 @@ func (g *ExprGen) nearMiss(n *uni.Node) string {
 		if k.Bits() < 64 && g.intn(8, "uwrap") == 0 {
 			return strconv.FormatUint(n.U+uint64(1)<<uint(k.Bits()), 10)
 		}
-		switch g.intn(5, "um") {
+		switch g.intn(7, "um") {
+		case 5:
+			return "0" + strconv.FormatUint(n.U, 8)
+		case 6:
+			return "0" + strconv.FormatUint(n.U, 10)
 		case 0:
 			if n.U < math.MaxUint64 {
 				return strconv.FormatUint(n.U+1, 10)
@@ -403,7 +419,15 @@ func (g *ExprGen) nearMiss(n *uni.Node) string {
 				return lit
 			}
 		}
-		switch g.intn(5, "fm") {
+		switch g.intn(7, "fm") {
+		case 5:
+			// the spellings strconv reads for the non-finite values, with and without sign, in any case
+			return []string{"Inf", "inf", "Infinity", "+Inf", "-Inf", "-infinity", "NaN", "nan", "INF", "+NaN"}[g.intn(10, "nonfinite")]
+		case 6:
+			if f >= 0 {
+				return "0" + strconv.FormatFloat(f, 'f', -1, 64)
+			}
+			return "-0" + strconv.FormatFloat(-f, 'f', -1, 64)
 		case 0:
 			if k == uni.KFloat32 {
 				return strconv.FormatFloat(float64(math.Nextafter32(float32(f), float32(math.Inf(1)))), 'g', -1, 32)
